@@ -123,6 +123,9 @@ def spellings(p, rng):
     out["renamed"] = r.render()
     out["renamed_abs"] = r.render(dep_style="abs")
     out["precedes"] = gen.to_precedes(p, rng).render()
+    dup = gen.renamed(gen.to_precedes(p, rng), rng, reuse_across_parents=True)
+    out["dupnames_precedes"] = dup.render()
+    out["dupnames_abs"] = gen.renamed(p, rng, reuse_across_parents=True).render(dep_style="abs")
     out["shiftswap"] = gen.swap_shift_inline(p).render()
     out["comments"] = gen.with_comments(p.render(comments=True), rng)
     out["macros"] = gen.with_macros(p.render(), rng)
@@ -139,7 +142,7 @@ def check_c15(prop, tier, replay=None):
     rng = random.Random(run.seed * 7 + 15)
     n = 8 if tier == "quick" else 150
     bases = []
-    for name in ("dags", "calendars", "core_dialect", "teams_alts", "limits_profile"):
+    for name in ("dags", "calendars", "core_dialect", "teams_alts", "limits_profile", "dup_leaf_ids"):
         bases += getattr(gen, name)(rng, n)
     jobs, pairs, payload = [], [], {}
     for pid, p in bases:
@@ -184,7 +187,10 @@ def add_intruder(p, rng):
     eff = rng.choice([G, 2 * G, 5 * G, 17 * G, G // 2 if (G // 2) % 60 == 0 else G, 40 * G])
     leaves = [t for t in q.ordered(q.tasks) if not t.kids]
     deps = []
-    if leaves and rng.random() < 0.4:
+    backward = q.alap or any(t.mode == "alap" or t.end is not None for t in q.tasks)
+    # in backward scheduling a successor constrains its predecessors (they must end before it starts), so an
+    # added task with dependencies is not "a task on which nothing depends" there: own edges only in ASAP projects
+    if leaves and rng.random() < 0.4 and not backward:
         deps = [(rng.choice(leaves), False, rng.choice([0, G]))]
     st = None
     if rng.random() < 0.25 and not deps:
@@ -202,7 +208,7 @@ def check_c09(prop, tier, replay=None):
     rng = random.Random(run.seed * 7 + 9)
     n = 14 if tier == "quick" else 300
     bases = []
-    for name in ("core_dialect", "chain_subslot", "limits_profile", "teams_alts", "calendars"):
+    for name in ("core_dialect", "chain_subslot", "limits_profile", "teams_alts", "calendars", "dags", "container_gate"):
         bases += getattr(gen, name)(rng, n)
     jobs, pairs, payload = [], [], {}
     for pid, p in bases:
@@ -297,6 +303,14 @@ def make_scenarios(p, rng):
     q.scenarios = shape
     ids = scenario_order(shape)[1:]
     leaves = [t for t in q.ordered(q.tasks) if not t.kids and t.effort]
+    if leaves and len(ids) >= 2 and rng.random() < 0.6:
+        # the same attribute of one task overridden on several nesting levels, the lines in random order
+        t = rng.choice(leaves)
+        order = list(ids)
+        rng.shuffle(order)
+        for sid in order:
+            if rng.random() < 0.8:
+                t.scen.setdefault(sid, {})["effort"] = q.G * rng.randint(1, 30)
     for sid in ids:
         if rng.random() < 0.25:
             continue            # scenario without overrides
